@@ -92,6 +92,9 @@ type Sched struct {
 	MaxSteps  int
 	Events    []string // optional schedule log
 	LogSched  bool
+	// NoChoice: take the default alternative everywhere and record nothing
+	// (setup phases whose schedule is not explored).
+	NoChoice bool
 	// OnStep, if set, is called by the scheduler at every quiescent moment
 	// before it picks the next thread (all threads are parked or blocked, so
 	// the monitor may read any state).
@@ -245,6 +248,9 @@ func (s *Sched) Choose(n int, label string) int {
 
 // caller holds s.mu or is the root at quiescence
 func (s *Sched) choose(st Step) int {
+	if s.NoChoice {
+		return 0
+	}
 	i := len(s.Trace)
 	c := 0
 	if i < len(s.Prefix) {
